@@ -28,7 +28,8 @@ static Plan gen_fileset(const std::string &prop, const std::string &tier, uint64
 	p.engine = "fileset"; p.prop = prop; p.tier = tier; p.seed = seed; p.run = run;
 	Rng r(seed, run, 0xf11e5e7);
 	int nfiles = 1 + (int)r.below(MAXF);
-	for (int i = 0; i < nfiles; i++) p.op("file", { std::to_string(i), std::to_string(r.below(31)), std::to_string(r.below(100000)) });
+	int fsize[MAXF] = { 0 };
+	for (int i = 0; i < nfiles; i++) { fsize[i] = (int)r.below(31); p.op("file", { std::to_string(i), std::to_string(fsize[i]), std::to_string(r.below(100000)) }); }
 	static const uint32_t ivals[] = { 0, 1, 5, 60, 600, NEVER };
 	uint32_t iv0 = ivals[r.below(6)];
 	p.seti("interval", iv0);
@@ -64,6 +65,20 @@ static Plan gen_fileset(const std::string &prop, const std::string &tier, uint64
 		int cycles = 2 + (int)r.below(6);
 		int pinned = -1;
 		for (int c = 0; c < cycles; c++) {
+			if (c > 0 && pinned < 0 && r.chance(1, 4)) {
+				// a name leaves the set, is reloaded away, its file is replaced by a table on the other side of the
+				// reader filters' threshold, and the name comes back
+				int i = (int)r.below(nfiles), hh = pick_handle();
+				std::vector<std::string> a{ std::to_string(r.below(3)) }, b{ std::to_string(r.below(3)) };
+				for (int j = 0; j < nfiles; j++) { std::string t = (r.chance(1, 3) ? "a" : "r") + std::to_string(j); if (j != i) a.push_back(t); b.push_back(t); }
+				Op o1; o1.name = "newver"; o1.a = a; p.ops.push_back(o1);
+				p.op("reloadnow", { std::to_string(hh) });
+				// a source operation: by now the reload has certainly happened (a lazy reload_now is admissible)
+				p.op("open", { std::to_string(hh), "1", "0", "x", "x" }); p.op("next", { "1", "3" }); p.op("close", { "1" });
+				fsize[i] = fsize[i] >= 12 ? (int)r.below(8) : 14 + (int)r.below(17);
+				p.op("replace", { std::to_string(i), std::to_string(fsize[i]), std::to_string(r.below(100000)) });
+				Op o2; o2.name = "newver"; o2.a = b; p.ops.push_back(o2);
+			} else
 			if (c > 0) newver();
 			if (r.chance(1, 5)) {
 				int nh = -1;
@@ -358,6 +373,29 @@ static RunResult exec_fileset(const Plan &p)
 			w.files[i].made = true;
 			for (auto &kv : m) w.allkeys.push_back(kv.first);
 			write_table(w.dir + "/f" + std::to_string(i) + ".mtbl", w.files[i].ents, (int)r.below(6), 1 + r.below(6), 1024);
+		} else if (o.name == "replace") {
+			// the table file of a name that is certainly not loaded at the moment (dropped from the setfile, and a
+			// reload has happened since) is replaced by another table; when the name comes back it is loaded anew
+			int i = (int)(o.argi(0) % MAXF);
+			bool maybe_loaded = w.n_iters > 0;
+			for (auto &c : w.C) {
+				if (c.none) continue;
+				int v = w.version_at(c.R);
+				if (v >= 0) for (auto &lf : w.vers[v].listed) if (lf.first == i) maybe_loaded = true;
+			}
+			if (!w.files[i].made || maybe_loaded) { res.unjudged["replace-skipped-file-may-be-loaded"]++; continue; }
+			Rng r((uint64_t)o.argi(2), 0xf2, 2);
+			KeyGen kg(r);
+			TableModel m = new_model();
+			size_t n = (size_t)o.argi(1);
+			for (size_t k = 0; k < n; k++) { Bytes key = r.chance(1, 3) && !w.allkeys.empty() ? w.allkeys[r.below(w.allkeys.size())] : kg.key(); m[key] = "g" + std::to_string(i) + "\n"; }
+			w.files[i].ents.assign(m.begin(), m.end());
+			for (auto &kv : m) w.allkeys.push_back(kv.first);
+			std::string fp = w.dir + "/f" + std::to_string(i) + ".mtbl", tp = fp + ".new";
+			write_table(tp, w.files[i].ents, (int)r.below(6), 1 + r.below(6), 1024);
+			rename(tp.c_str(), fp.c_str());
+			w.files[i].deleted = false;
+			res.probes["table-file-replaced-while-not-listed"]++;
 		} else if (o.name == "newver") {
 			Version v;
 			v.t = w.now();
